@@ -56,3 +56,20 @@ def psum_monotone():
     M = lambda kk: z3.ForAll([i], z3.Implies(z3.And(0 <= i, i <= kk), psum(i) <= psum(kk)))
     return [("psum_monotone_base", [defn], M(z3.IntVal(0))),
             ("psum_monotone_step", [defn, 0 <= k, k < n, M(k)], M(k + 1))]
+
+
+def cum_nonnegative():
+    """the ghost cumulative length used by tsk_node_table_extend: cum(t) >= 0 follows from the recurrence because the
+    offsets of the source table never decrease (row lengths are non-negative)"""
+    off = z3.Const("off", A)
+    idx = z3.Const("idx", A)
+    m = z3.Int("m")
+    cum = z3.Function("cum", z3.IntSort(), z3.IntSort())
+    mono = z3.ForAll([i], z3.Implies(z3.And(0 <= i, i < m), off[i] <= off[i + 1]))
+    inr = lambda r: z3.And(0 <= r, r < m)
+    defn = z3.And(cum(0) == 0, mono,
+                  z3.ForAll([i], z3.Implies(z3.And(0 <= i, i < n, inr(idx[i])), cum(i + 1) == cum(i) + off[idx[i] + 1] - off[idx[i]])),
+                  z3.ForAll([i], z3.Implies(z3.And(0 <= i, i < n), inr(idx[i]))))
+    P = lambda kk: cum(kk) >= 0
+    return [("cum_nonneg_base", [defn], P(z3.IntVal(0))),
+            ("cum_nonneg_step", [defn, 0 <= k, k < n, P(k)], P(k + 1))]
